@@ -91,6 +91,15 @@ def _show_opt(o):
 
 
 def single_script(cid, case, mode="A", cpu=None):
-    text, _ = optrun.case_script(cid, case["decl"], case.get("env") or {},
-                                 [("parse", case.get("mode", mode), case["argv"])], cpu=cpu)
+    """one judged parse; case["earlier"] (a list of vectors) is parsed first on the SAME parser object - the
+    judged parse must not depend on that history (accepted, rejected half-way, anything)"""
+    acts = [("parse", "A", v) for v in case.get("earlier") or []]
+    acts.append(("parse", case.get("mode", mode), case["argv"]))
+    text, _ = optrun.case_script(cid, case["decl"], case.get("env") or {}, acts, cpu=cpu)
     return text
+
+
+def judged_line(lines):
+    """the output line of the judged (= last) parse of a case"""
+    pl = [l for l in lines if l.startswith("P ")]
+    return pl[-1] if pl else None
